@@ -5,14 +5,17 @@ import (
 	"strings"
 )
 
-var (
-	// The password is a whole string literal (which may contain blanks, escaped
-	// quotes and '='), a double-quoted word or, for common invalid statements,
-	// a bare word. The user name may be a quoted identifier containing '='.
-	sanitizeSetPassword = regexp.MustCompile(`(?i)password\s+for\s+(?:"(?:[^"\\\n]|\\.)*"|[^\s="']+)\s*=\s*('(?:[^'\\\n]|\\.)*'|"(?:[^"\\\n]|\\.)*"|[^\s"';]+)`)
-
-	sanitizeCreatePassword = regexp.MustCompile(`(?i)with\s+password\s*('(?:[^'\\\n]|\\.)*'|"(?:[^"\\\n]|\\.)*"|[^\s"';]+)`)
-)
+// sanitizePassword matches the password clause of SET PASSWORD and of
+// CREATE USER and captures the password.
+//
+// The password is a whole string literal (which may contain blanks, escaped
+// quotes and '='), a double-quoted word or, for common invalid statements,
+// a bare word. The user name may be a quoted identifier containing '='.
+//
+// Both clauses are alternatives of one pattern so that the text is scanned
+// once: a password that itself contains the text of a password clause is
+// consumed as a whole and nothing inside it is taken for another clause.
+var sanitizePassword = regexp.MustCompile(`(?i)(?:password\s+for\s+(?:"(?:[^"\\\n]|\\.)*"|[^\s="']+)\s*=\s*|with\s+password\s*)('(?:[^'\\\n]|\\.)*'|"(?:[^"\\\n]|\\.)*"|[^\s"';]+)`)
 
 // Sanitize attempts to sanitize passwords out of a raw query.
 // It looks for patterns that may be related to the SET PASSWORD and CREATE USER
@@ -23,19 +26,7 @@ var (
 // This function works on the raw query and attempts to retain the original input
 // as much as possible.
 func Sanitize(query string) string {
-	if matches := sanitizeSetPassword.FindAllStringSubmatchIndex(query, -1); matches != nil {
-		var buf strings.Builder
-		i := 0
-		for _, match := range matches {
-			buf.WriteString(query[i:match[2]])
-			buf.WriteString("[REDACTED]")
-			i = match[3]
-		}
-		buf.WriteString(query[i:])
-		query = buf.String()
-	}
-
-	if matches := sanitizeCreatePassword.FindAllStringSubmatchIndex(query, -1); matches != nil {
+	if matches := sanitizePassword.FindAllStringSubmatchIndex(query, -1); matches != nil {
 		var buf strings.Builder
 		i := 0
 		for _, match := range matches {
